@@ -111,7 +111,7 @@ func init() {
 		ID:          "C17",
 		Title:       "Snapshot and restore reproduce the database exactly",
 		Technique:   "static analysis: lockset rule (every bolt transaction entry under the reload read-lock, the file swap under the write lock), must-pass sequence Close<Rename<Rename<Open on every return of the restore, same-transaction read-decide-write rule for the timeline id, decision table of the timeline mode, copy-inside-read-transaction rule; handle rule (every read of the database handle that enters bolt happens under the reload lock, also through function values and closures); unconditional listener registration",
-		LevelText:   "Decides necessary conditions on every path: all bbolt transaction entries of DbImpl run with reloadLock read-held and the restore's close/rename/rename/open sequence runs with it write-held, on every returning path of the restore (no shortcut around the swap); snapshots are copied from inside a read transaction and marked (snapshot id + reset flag) in one transaction whose error is returned; the timeline id is read, decided and rewritten inside one write transaction (so concurrent callers cannot both reset) and forceResetTimeline has the documented truth table; restore listeners start only after the new database is open. Content equality after restore and mixture-freedom of concurrent transactions depend on bbolt and the file system and are not decided. Stated on loads of DbImpl.db: each load whose value enters a bolt transaction (directly, through a method expression handed to a helper, or inside a closure invoked under the lock) happens with reloadLock read-held; AddRestoreListener appends the given listener on every path. Added later: wherever package boltz reads a stream by hand, no path on which n > 0 is possible reaches a successful return or the next Read without buf[:n] taken (READLOOP; io.Reader may return the last bytes together with io.EOF; zero sites on the pinned tree, positive and negative control). Strengthened in round 8: snapshot id and timeline-reset flag are written on every path of the marking transaction.",
+		LevelText:   "Decides necessary conditions on every path: all bbolt transaction entries of DbImpl run with reloadLock read-held and the restore's close/rename/rename/open sequence runs with it write-held, on every returning path of the restore (no shortcut around the swap); snapshots are copied from inside a read transaction and marked (snapshot id + reset flag) in one transaction whose error is returned; the timeline id is read, decided and rewritten inside one write transaction (so concurrent callers cannot both reset) and forceResetTimeline has the documented truth table; restore listeners start only after the new database is open. Content equality after restore and mixture-freedom of concurrent transactions depend on bbolt and the file system and are not decided. Stated on loads of DbImpl.db: each load whose value enters a bolt transaction (directly, through a method expression handed to a helper, or inside a closure invoked under the lock) happens with reloadLock read-held; AddRestoreListener appends the given listener on every path. Added later: wherever package boltz reads a stream by hand, no path on which n > 0 is possible reaches a successful return or the next Read without buf[:n] taken (READLOOP; io.Reader may return the last bytes together with io.EOF; zero sites on the pinned tree, positive and negative control). Strengthened in round 8: snapshot id and timeline-reset flag are written on every path of the marking transaction. Added in round 13: the transaction that stamps the snapshot copy is only used to find the metadata bucket (STAMPONLY); the timeline reset flag is set to true by the stamp only (RESETONCE).",
 		LevelNote:   "Trusted: go/types, x/tools SSA, sync.RWMutex, bbolt, os.Rename atomicity.",
 		DesignRef:   "DESIGN.md C17",
 		Explanation: "Sites: every method of DbImpl; the closures of Snapshot, MarkAsSnapshot, GetTimelineId; TimelineMode.forceResetTimeline.",
@@ -121,6 +121,7 @@ func init() {
 			{"C17.READLOOP", "zzControlGood_C17_READLOOP", false},
 		},
 		Rules: func(c *Ctx) {
+			ruleSnapshotStamp(c, "C17.STAMPONLY", "C17.RESETONCE")
 			ruleC17Lock(c)
 			ruleC17Restore(c)
 			ruleC17Snapshot(c)
